@@ -131,6 +131,81 @@ let mode_split path =
   close_in ic;
   Printf.printf "SPLIT %d %d\n" !n !bad
 
+(* gemhist FILE: histories over a pool of gem.String values; after every step the
+   result and a snapshot of every pool value (runes, cache cell up to renaming,
+   nil-ness, contents) must equal the heap model's (Gem/GHeap.v) *)
+let nat_to_int x = let rec f acc = function O -> acc | S k -> f (acc + 1) k in f 0 x
+let mode_gemhist path =
+  let ic = open_in path in
+  let n = ref 0 and bad = ref 0 and steps_total = ref 0 in
+  let rtok rs = if rs = [] then "-" else String.concat "," (Stdlib.List.map (fun z -> string_of_z z) rs) in
+  let itok xs = if xs = [] then "-" else String.concat "," (Stdlib.List.map (fun x -> string_of_int (nat_to_int x)) xs) in
+  let snapshot (h : GHeap.heap) (pool : GHeap.gval list) =
+    let ids = Hashtbl.create 16 in
+    let parts = Stdlib.List.map (fun (v : GHeap.gval) ->
+        let c, cont = (match v.GHeap.g_c with
+            | None -> "z", None
+            | Some l -> let li = nat_to_int l in
+              let id = (match Hashtbl.find_opt ids li with Some i -> i | None -> let i = Hashtbl.length ids in Hashtbl.add ids li i; i) in
+              string_of_int id, GHeap.rd h l) in
+        rtok v.GHeap.g_r ^ "/" ^ c ^ "/" ^ (match cont with None -> "n" | Some _ -> "f") ^ "/" ^
+        (match cont with None -> "-" | Some e -> itok e)) pool in
+    if parts = [] then "-" else String.concat ";" parts in
+  (try while true do
+       let l = input_line ic in
+       (match String.index_opt l '#' with
+        | Some k ->
+          incr n;
+          let left = Stdlib.List.filter (fun s -> s <> "") (String.split_on_char ' ' (String.sub l 0 k)) in
+          let right = Stdlib.List.filter (fun s -> s <> "") (String.split_on_char ' ' (String.sub l (k + 1) (String.length l - k - 1))) in
+          let t = Array.of_list left in
+          let i = ref 2 in
+          let next () = let s = t.(!i) in incr i; s in
+          let nat () = nat_of_int (int_of_string (next ())) in
+          let z () = z_of_string (next ()) in
+          let runes () = let s = next () in if s = "-" then [] else Stdlib.List.map z_of_string (String.split_on_char ',' s) in
+          let nsteps = int_of_string t.(1) in
+          let ops = Stdlib.List.init nsteps (fun _ ->
+              match next () with
+              | "new" -> GHeap.GNew (runes ())
+              | "zero" -> GHeap.GZero
+              | "zv" -> GHeap.GZeroValue
+              | "copy" -> GHeap.GCopy (nat ())
+              | "add" -> let a = nat () in let b = nat () in GHeap.GAdd (a, b)
+              | "sub" -> let a = nat () in let x = z () in let y = z () in GHeap.GSub (a, x, y)
+              | "set" -> let a = nat () in let x = z () in let r = runes () in GHeap.GSetCharAt (a, x, r)
+              | "rep" -> let a = nat () in let x = z () in GHeap.GRepeat (a, x)
+              | "charat" -> let a = nat () in let x = z () in GHeap.GCharAt (a, x)
+              | "len" -> GHeap.GLen (nat ())
+              | "runes" -> GHeap.GRunes (nat ())
+              | "idx" -> GHeap.GIndexes (nat ())
+              | "rev" -> GHeap.GReverse (nat ())
+              | o -> failwith ("gem op " ^ o)) in
+          let res = GHeap.grun cls (GHeap.heap0, []) ops in
+          let toks = Stdlib.List.map (fun (((h, pool), out) : (GHeap.heap * GHeap.gval list) * GHeap.gout) ->
+              let o = (match out with
+                  | GHeap.OutNone -> "N" | GHeap.OutPanic -> "P"
+                  | GHeap.OutRunes rs -> "R" ^ rtok rs
+                  | GHeap.OutInt z -> "I" ^ string_of_z z
+                  | GHeap.OutPairs ps -> if ps = [] then "X-" else
+                      "X" ^ String.concat "," (Stdlib.List.map (fun (a, b) -> Printf.sprintf "%d:%d" (nat_to_int a) (nat_to_int b)) ps)) in
+              o ^ "|" ^ snapshot h pool) res in
+          steps_total := !steps_total + nsteps;
+          if toks <> right then begin
+            incr bad;
+            if !bad <= 10 then begin
+              let rec first k a b = match a, b with
+                | x :: a', y :: b' -> if x = y then first (k + 1) a' b' else (k, x, y)
+                | _ -> (k, "-", "-") in
+              let (k, m, g) = first 0 toks right in
+              Printf.printf "GEMDIFF %s step=%d model=%s impl=%s\n" t.(0) k m g
+            end
+          end
+        | None -> ())
+     done with End_of_file -> ());
+  close_in ic;
+  Printf.printf "GEMHIST %d %d %d\n" !n !bad !steps_total
+
 (* sweepcls FILE: lines "value bits"; the class the model's decision tree gives
    must be the class the implementation's predicate bits give *)
 let mode_sweepcls path =
@@ -181,5 +256,6 @@ let () =
   match Array.to_list Sys.argv with
   | [_; "split"; p] -> mode_split p
   | [_; "sweepcls"; p] -> mode_sweepcls p
+  | [_; "gemhist"; p] -> mode_gemhist p
   | [_; c; r] -> mode_cases c r
   | _ -> prerr_endline "usage: driver CASES RESULTS | driver split FILE | driver sweepcls FILE"; exit 2
